@@ -43,6 +43,7 @@ def a_ops(n_existing):
     ops.append(("add", "B", None, None, "extend2"))
     for i in range(n_existing):
         ops.append(("remove", i))
+        ops.append(("remove_safe", i))
         ops.append(("readd", i))
         ops.append(("unname_readd", i))
     return ops
@@ -109,6 +110,13 @@ def a_run(seed, history):
                 n = nodes[op[1]]
                 if n.graph is g:
                     g.remove(n)
+            elif op[0] == "remove_safe":
+                n = nodes[op[1]]
+                if n.graph is g:
+                    try:
+                        g.remove(n, safe=True)
+                    except ValueError:
+                        pass  # still in use: a rejected removal changes nothing (C06)
             elif op[0] in ("readd", "unname_readd"):
                 n = nodes[op[1]]
                 if n.graph is g:
